@@ -255,9 +255,20 @@ def random_scene(
                 # loss number a = c*sigma*eta0/(2 eps) * spacing-scale <= 0.5 is enforced by the caller via 'sig_scale'
                 # S/m scaled so that the loss number c*sigma*spacing*eta0/(2 eps) stays below ~0.3
                 s = float(rng.uniform(0.0, 1.0)) * 5e4 * (50e-9 / spacing)
-                mat["sig_e"] = [s * float(x) for x in rng.uniform(0.2, 1.0, size=3)] if tier == "diag" else s
+                # the conductivity tiers are independent of the permittivity tier: one-component conductivity on a
+                # three-component permittivity and the reverse both occur (never with a TFSF source in the scene)
+                vec_e = tier == "diag"
+                if "tfsf" not in kinds and rng.random() < 0.35:
+                    vec_e = not vec_e
+                    meta["sigma_e_tier_differs_from_eps"] = True
+                mat["sig_e"] = [s * float(x) for x in rng.uniform(0.2, 1.0, size=3)] if vec_e else s
                 if meta["magnetic"] and rng.random() < 0.5:
-                    mat["sig_m"] = float(rng.uniform(0.0, 1.0)) * 5e9 * (50e-9 / spacing)
+                    sm = float(rng.uniform(0.0, 1.0)) * 5e9 * (50e-9 / spacing)
+                    if "tfsf" not in kinds and rng.random() < 0.35:
+                        mat["sig_m"] = [sm * float(x) for x in rng.uniform(0.2, 1.0, size=3)]
+                        meta["sigma_m_vector"] = True
+                    else:
+                        mat["sig_m"] = sm
             scene["materials"].append({"lo": lo, "hi": hi, "mat": mat, "order": int(rng.integers(0, 3))})
 
     # ---- sources ------------------------------------------------------------------------------
@@ -339,5 +350,18 @@ def random_scene(
             d["switch"] = random_detector_switch(rng, steps, dt)
         meta["detector_kinds"].append(k)
         scene["detectors"].append(d)
+    # ---- boundary construction route ------------------------------------------------------------
+    # when every face has a plain type the boundaries are, half of the time, built through the public
+    # BoundaryConfig / boundary_objects_from_config route, with stray wave-vector components on the axes that are not
+    # typed "bloch" (documented to be unused there)
+    plain = all(
+        scene["faces"][f]["type"] != "none" and all(k in ("type", "thickness") for k in scene["faces"][f]) for f in FACES
+    )
+    if plain and rng.random() < 0.5:
+        scene["boundary_api"] = "config"
+        for a in range(3):
+            if scene["faces"][f"min_{XYZ[a]}"]["type"] != "bloch":
+                scene["bloch"][a] = float(rng.uniform(-3.0, 3.0)) / (shape[a] * spacing)
+        meta["boundary_api"] = "config"
     scene["meta"] = meta
     return scene
